@@ -101,6 +101,7 @@ func serveScenario(v6 bool, reads [][]byte) (outs [][]byte) {
 		var wg sync.WaitGroup
 		exited := make(chan struct{})
 		servePanic = ""
+		msgChanged = ""
 		order := func(b []byte) string {
 			for i, r := range reads {
 				if len(r) >= 4 && r[0] == 0 && bytes.Equal(firstN(r[4:], 4096), b) {
@@ -113,7 +114,13 @@ func serveScenario(v6 bool, reads [][]byte) (outs [][]byte) {
 			h := func(c net.PacketConn, peer net.Addr, m dhcpv6.DHCPv6) {
 				wg.Add(1)
 				defer wg.Done()
+				atStart := m.ToBytes()
 				<-gate // outlive the following reads
+				if after := m.ToBytes(); !bytes.Equal(after, atStart) {
+					mu.Lock()
+					msgChanged = fmt.Sprintf("a DHCPv6 message changed while its handler ran: %x became %x", firstN(atStart, 60), firstN(after, 60))
+					mu.Unlock()
+				}
 				var ip []byte
 				var port []byte
 				if u, ok := peer.(*net.UDPAddr); ok {
@@ -142,7 +149,19 @@ func serveScenario(v6 bool, reads [][]byte) (outs [][]byte) {
 			h := func(c net.PacketConn, peer net.Addr, m *dhcpv4.DHCPv4) {
 				wg.Add(1)
 				defer wg.Done()
+				atStart := m.ToBytes()
+				peerAtStart := peer.String()
 				<-gate
+				if after := m.ToBytes(); !bytes.Equal(after, atStart) {
+					mu.Lock()
+					msgChanged = fmt.Sprintf("a DHCPv4 message changed while its handler ran (later datagrams were read meanwhile): options %x became %x", firstN(atStart[240:], 40), firstN(after[240:], 40))
+					mu.Unlock()
+				}
+				if peer.String() != peerAtStart {
+					mu.Lock()
+					msgChanged = fmt.Sprintf("the peer given to a handler changed while it ran: %s became %s", peerAtStart, peer.String())
+					mu.Unlock()
+				}
 				u := peer.(*net.UDPAddr)
 				enc := m.ToBytes()
 				mu.Lock()
@@ -200,6 +219,9 @@ func serveScenario(v6 bool, reads [][]byte) (outs [][]byte) {
 
 // set when Serve panicked in the last scenario
 var servePanic string
+
+// set when a handler saw its message (or peer) change between its start and the end of the scenario
+var msgChanged string
 
 // how many scripted reads the loop had taken when every goroutine was at rest and no handler had finished yet
 var lastConsumed int
@@ -348,6 +370,9 @@ func genC14(r *Run) {
 		if lastConsumed < wantConsumed && servePanic == "" {
 			r.Fail("c14-loop-stalled-by-running-handlers", trunc(Case{entry, reads}.Line(), 800),
 				fmt.Sprintf("with all handlers still running the loop had read only %d of %d datagrams: dispatch must not wait for earlier handlers", lastConsumed, wantConsumed))
+		}
+		if msgChanged != "" {
+			r.Fail("c14-message-not-independent", trunc(Case{entry, reads}.Line(), 800), msgChanged)
 		}
 		if outs[len(outs)-1][0] == 9 {
 			r.Fail("c14-serve-panics", trunc(Case{entry, reads}.Line(), 800), "the serving loop crashed: "+servePanic)
